@@ -2,12 +2,13 @@
 import KlogV.Gen.GoPar
 import KlogV.Model.Parallel
 import KlogV.GoSem.Abs
+import KlogV.Lemmas.GoPar2
 namespace KlogV.GoL
 open KlogV.Go
 
 theorem splitIntoChunks_eq (t : Bytes) (n fuel : Nat) (hn : 1 ≤ n) (hn2 : n < 9007199254740992)
     (hlen : t.length < 9007199254740992) (hf : t.length < fuel) :
     GoPar.splitIntoChunks fuel t (n : Int) = .ok (splitIntoChunks t n) := by
-  sorry
+  exact Par.split_eq t n fuel hn hn2 hlen hf
 
 end KlogV.GoL
